@@ -53,3 +53,170 @@ func (c *Ctx) checkAtCall(st *State, x *ast.CallExpr, fn *types.Func) {
 
 // bindParamsCurrent: nothing to bind explicitly — parameters and locals resolve through the Go scope at scopePos.
 func (c *Ctx) bindParamsCurrent(env *SpecEnv) {}
+
+// ---------------------------------------------------------------------------------------------
+// Branching on the result of an inlined closure without merging its return paths first.
+//
+// `if f(a, b) || g(c) { return }` where f, g are closure literals with several `return true` / `return false` paths:
+// merging the paths at the call boundary and then assuming the (negated) result leaves ite-selected heaps behind that
+// the solver has to untangle for every later obligation. splitCond partitions the closure's return states by the literal
+// they return, so that the then-branch continues from the "true" returns only and the else-branch from the "false"
+// returns only. Sound by construction: the two states are the same disjunction of paths the merged state stood for.
+
+func (c *Ctx) splitCond(st *State, e ast.Expr) (*State, *State, bool) {
+	switch x := ast.Unparen(e).(type) {
+	case *ast.UnaryExpr:
+		if x.Op.String() == "!" {
+			t, f, ok := c.splitCond(st, x.X)
+			return f, t, ok
+		}
+	case *ast.BinaryExpr:
+		op := x.Op.String()
+		if op != "||" && op != "&&" {
+			return nil, nil, false
+		}
+		if !c.splittable(st, x.X) && !c.splittable(st, x.Y) {
+			return nil, nil, false
+		}
+		aT, aF := c.splitOrGeneric(st, x.X)
+		if op == "||" {
+			if aF.dead() {
+				return aT, aF, true
+			}
+			bT, bF := c.splitOrGeneric(aF, x.Y)
+			return c.merge(aT, bT), bF, true
+		}
+		if aT.dead() {
+			return aT, aF, true
+		}
+		bT, bF := c.splitOrGeneric(aT, x.Y)
+		return bT, c.merge(aF, bF), true
+	case *ast.CallExpr:
+		if !c.splittable(st, x) {
+			return nil, nil, false
+		}
+		t, f := c.splitClosureCall(st, x)
+		return t, f, true
+	}
+	return nil, nil, false
+}
+
+func (c *Ctx) splitOrGeneric(st *State, e ast.Expr) (*State, *State) {
+	if t, f, ok := c.splitCond(st.clone(), e); ok {
+		return t, f
+	}
+	work := st.clone()
+	v := c.condTerm(work, e)
+	t := work.clone()
+	t.assume(c, v)
+	work.assume(c, Not(v))
+	return t, work
+}
+
+// splittable: a call of a local closure literal with a single boolean result and no defer statement in its body.
+func (c *Ctx) splittable(st *State, e ast.Expr) bool {
+	x, ok := ast.Unparen(e).(*ast.CallExpr)
+	if !ok {
+		return false
+	}
+	lit := c.closureLit(st, x)
+	if lit == nil {
+		return false
+	}
+	sig, ok := c.typeOf(lit).(*types.Signature)
+	if !ok || sig.Results().Len() != 1 || !isBoolType(sig.Results().At(0).Type()) {
+		return false
+	}
+	hasDefer := false
+	ast.Inspect(lit.Body, func(n ast.Node) bool {
+		if _, isD := n.(*ast.DeferStmt); isD {
+			hasDefer = true
+		}
+		return !hasDefer
+	})
+	return !hasDefer
+}
+
+func (c *Ctx) closureLit(st *State, x *ast.CallExpr) *ast.FuncLit {
+	id, ok := ast.Unparen(x.Fun).(*ast.Ident)
+	if !ok {
+		return nil
+	}
+	obj := c.pkg.info.ObjectOf(id)
+	if obj == nil {
+		return nil
+	}
+	fr, ok := st.vars[obj].(FuncRef)
+	if !ok || fr.Lit == nil {
+		return nil
+	}
+	lit, _ := fr.Lit.(*ast.FuncLit)
+	return lit
+}
+
+func (c *Ctx) splitClosureCall(st *State, x *ast.CallExpr) (*State, *State) {
+	lit := c.closureLit(st, x)
+	sig := c.typeOf(lit).(*types.Signature)
+	args := c.evalArgs(st, x, sig)
+	c.inlineDepth++
+	saved := c.fr
+	c.fr = &frame{pkg: c.pkg, sig: sig, key: c.inlineKey, loopIdx: numberLoops(lit.Body)}
+	defer func() { c.fr = saved; c.inlineDepth-- }()
+	c.initDefers(st, lit.Body)
+	c.bindParams(st, lit.Type, nil, nil, args)
+	c.declareResults(st, lit.Type, sig)
+	out := c.execBlock(st, lit.Body.List)
+	var ends []*State
+	if out.normal != nil && !out.normal.dead() {
+		ends = append(ends, out.normal)
+	}
+	for _, r := range c.fr.retStates {
+		if !r.st.dead() {
+			ends = append(ends, r.st)
+		}
+	}
+	var tS, fS *State
+	add := func(dst **State, s *State) {
+		if *dst == nil {
+			*dst = s
+		} else {
+			*dst = c.merge(*dst, s)
+		}
+	}
+	for _, s := range ends {
+		// a panic escaping the closure propagates to the caller's frame, exactly as in inlineBodyFC
+		if pf := c.panicFlag(s); pf.S != "false" && saved != nil {
+			ps := s.clone()
+			ps.assume(c, pf)
+			if !ps.dead() {
+				saved.retStates = append(saved.retStates, &retState{ps})
+			}
+			s.assume(c, Not(pf))
+			s.ghosts["$panic"] = Scalar{TFalse, tBool}
+			if s.dead() {
+				continue
+			}
+		}
+		rv, _ := s.vars[c.fr.results[0]].(Scalar)
+		switch rv.T.S {
+		case "true":
+			add(&tS, s)
+		case "false":
+			add(&fS, s)
+		default:
+			t := s.clone()
+			t.assume(c, rv.T)
+			s.assume(c, Not(rv.T))
+			add(&tS, t)
+			add(&fS, s)
+		}
+	}
+	dead := func() *State { d := st.clone(); d.pc = TFalse; return d }
+	if tS == nil {
+		tS = dead()
+	}
+	if fS == nil {
+		fS = dead()
+	}
+	return tS, fS
+}
